@@ -196,6 +196,14 @@ func c13Life(c *mon.Ctx, r *mon.Rand) {
 	}
 	m3ViaConfiguration = r.Chance(1, 6)
 	defer func() { m3ViaConfiguration = false }()
+	// every fifth lifetime has one more destination that is a dead port (send
+	// errors on that destination): the live sinks must still see every value
+	// exactly once
+	deadDest := r.Chance(1, 5)
+	if deadDest {
+		opts.HostPorts = []string{mon.DeadPort()}
+		c.Class("lifetimes-with-one-dead-destination-next-to-live-sinks", 1)
+	}
 	nProd := r.Range(1, 8)
 	nIdents := r.Range(1, 60)
 	if r.Chance(1, 6) {
@@ -204,7 +212,7 @@ func c13Life(c *mon.Ctx, r *mon.Rand) {
 	perProd := r.Range(1, 300)
 	idents := genM3Idents(r, nIdents)
 	desc := map[string]interface{}{"protocol": protoName(proto), "sinks": nSinks, "queue": opts.MaxQueueSize, "max_packet": opts.MaxPacketSizeBytes,
-		"common_tags": len(common), "include_host": opts.IncludeHost, "via_configuration": m3ViaConfiguration, "producers": nProd, "identities": nIdents, "calls_per_producer": perProd, "bucket_tag_names": idName + "/" + bName}
+		"dead_destination_first": deadDest, "common_tags": len(common), "include_host": opts.IncludeHost, "via_configuration": m3ViaConfiguration, "producers": nProd, "identities": nIdents, "calls_per_producer": perProd, "bucket_tag_names": idName + "/" + bName}
 	c.LogCase(fmt.Sprint(desc))
 	stopWatch := c.Watchdog(300*time.Second, "m3-call-or-close-does-not-return", desc)
 	defer stopWatch()
